@@ -335,3 +335,60 @@ def run_design(c: checklib.Check, histories=True):
         step = 3 if c.thorough else 12
         hist += [(START[start]["start"], START[start]["outside"], h) for h in hs[c.seed % step:: step]]
     kv.validate(c, hist)
+
+
+# ----------------------------------------------------------------------------- spec -> code: walks of InotifyPipeline.tla
+
+
+def _walk_job(args):
+    from checks import scen_reader_replay as rr
+
+    init, walks = args
+    out = []
+    for labels, states in walks:
+        mm = rr.replay_walk(init, list(zip(labels, states)))
+        out.append(mm)
+    return out
+
+
+def replay_design_walks(c: checklib.Check, cfgs=("InotifyPipeline_quick.cfg", "InotifyPipeline_quick_empty.cfg"), every=1):
+    """Transition cover of the dumped InotifyPipeline graphs replayed on the real Inotify.read_events (real kernel):
+    driver actions as system calls, RdRead(n) / RdStep as exactly n raw events read / one raw event processed, the
+    library's watch table compared with the model's after every action.  Divergence = drift (DESIGN §3)."""
+    total = bad = edges = 0
+    for cfg in cfgs:
+        tmp = tlc.scratch_dir()
+        try:
+            dot = os.path.join(tmp, "g.dot")
+            r = tlc.run_tlc("InotifyPipeline", cfg, dump=dot, timeout=1800, heap="8g")
+            tlc.require_ok(r, cfg)
+            g = tlagraph.load_dot(dot)
+        finally:
+            shutil.rmtree(tmp, ignore_errors=True)
+        walks, n_edges = tlagraph.transition_cover(g, max_len=40, skip_labels=("Done",))
+        edges += n_edges
+        walks = walks[c.seed % every:: every]
+        init = g.state(g.init[0])
+        keep = ("node", "wfp")
+        jobs = []
+        k = c.jobs * 3
+        for i in range(k):
+            part = [([lab for lab, _ in w], [{kk: g.state(nid)[kk] for kk in keep} for _, nid in w]) for _, w in walks[i::k]]
+            if part:
+                jobs.append(({kk: init[kk] for kk in keep}, part))
+        with _CTX.Pool(c.jobs) as pool:
+            res = pool.map(_walk_job, jobs, chunksize=1)
+        for part in res:
+            for mm in part:
+                total += 1
+                if mm is not None:
+                    bad += 1
+                    if bad <= 3:
+                        c.note(f"spec->code drift ({cfg}): {str(mm)[:400]}")
+    c.cov["model_edges"] = c.cov.get("model_edges", 0) + edges
+    c.cov["walks_replayed"] = c.cov.get("walks_replayed", 0) + total
+    c.cov["drift_traces"] += bad
+    c.cov["evaluations"] += total
+    c.note(f"spec->code: {total} walks covering {edges} edges of InotifyPipeline.tla replayed on the real Inotify.read_events, "
+           f"{bad} diverged")
+    return total, bad
